@@ -41,7 +41,7 @@ DRIVER = 'Drv/C02.lean'
 # proposals for /verif/known_findings.json (the integrator merges them); used locally until they are listed there.
 # class_expr = one disjunct of the complement of `Tp.supported` (hypothesis of C02.transpile_*_sound) each.
 PROPOSED_FINDINGS = [
-    {"id": "C02-ternary-not-verilog", "property": "C02", "status": "known", "anchor": "py4hw/transpilation/python2verilog_transpilation.py:356",
+    {"id": "C02-ternary-not-verilog", "property": "C02", "status": "fixed", "fixed_by": "760fbc8", "anchor": "py4hw/transpilation/python2verilog_transpilation.py:356",
      "class_expr": "'ternary' in r.get('reasons', []) and r.get('kind') in ('unparseable','mismatch')",
      "witness": {"src": "y = 1 if self.a.get() > 2 else 2; self.r.prepare(y)"},
      "what": "a ternary `x if c else y` is accepted and emitted as the statement text `y=if (c) begin 1 end else begin 2 end;` (not Verilog); "
@@ -85,7 +85,7 @@ PROPOSED_FINDINGS = [
      "class_expr": "'name-clash' in r.get('reasons', []) and r.get('kind') in ('mismatch','x-after-write','x-state','x-consequence','unparseable','v-error')",
      "witness": {"src": "s0 = self.a.get() + 1; self.r.prepare(s0 + self.s0)", "history": [{"a": 1}], "signal": "s0"},
      "what": "a local variable and `self.<same name>` (state attribute, port or constructor constant) become the SAME Verilog identifier"},
-    {"id": "C02-float-const-accepted", "property": "C02", "status": "known", "anchor": "py4hw/transpilation/python2verilog_transpilation.py:605",
+    {"id": "C02-float-const-accepted", "property": "C02", "status": "fixed", "fixed_by": "61df158", "anchor": "py4hw/transpilation/python2verilog_transpilation.py:605",
      "class_expr": "r.get('kind')=='accepted-unsupported' and r.get('construct')=='float-const'",
      "witness": {"src": "self.r.prepare(self.a.get() + 1.5)"},
      "what": "a float constant in the method body is not refused: `r.prepare(a + 1.5)` is emitted as `r<=a+1.5;` (a Verilog real, rounded on assignment) "
@@ -623,6 +623,42 @@ class WNoDefault(py4hw.Logic):
                 self.st = 0
         self.r.prepare(self.st)
 
+class WTernaryInCall(py4hw.Logic):
+    def __init__(self, parent, name, a, b, r):
+        super().__init__(parent, name)
+        self.a = self.addIn('a', a)
+        self.b = self.addIn('b', b)
+        self.r = self.addOut('r', r)
+        self.s = 0
+    def clock(self):
+        self.s = (self.s + (2 if self.a.get() > self.b.get() else (1 if self.a.get() == self.b.get() else 0))) & 255
+        self.r.prepare((self.a.get() if self.s > 3 else self.b.get()) + 1)
+
+class WFloatConst(py4hw.Logic):
+    def __init__(self, parent, name, a, b, r):
+        super().__init__(parent, name)
+        self.a = self.addIn('a', a)
+        self.b = self.addIn('b', b)
+        self.r = self.addOut('r', r)
+    def clock(self):
+        self.r.prepare(self.a.get() + 1.5)
+
+class WMultiInit(py4hw.Logic):
+    def __init__(self, parent, name, a, b, r):
+        super().__init__(parent, name)
+        self.a = self.addIn('a', a)
+        self.b = self.addIn('b', b)
+        self.r = self.addOut('r', r)
+        self.count = 0
+        self.lim = 3
+        self.count = 5
+        self.lim = 9
+        self.count = 6
+    def clock(self):
+        self.r.prepare(self.count + self.lim)
+        if self.a.get() == 1:
+            self.count = (self.count + 1) & 255
+
 class WGuardedWildcard(py4hw.Logic):
     def __init__(self, parent, name, a, b, r):
         super().__init__(parent, name)
@@ -713,7 +749,13 @@ class WClash(py4hw.Logic):
         self.r.prepare(s0 + self.s0)
 '''
 WITNESSES = [  # (class, history, expected finding id)
-    ('WTernary', [{'a': 5, 'b': 0}], 'C02-ternary-not-verilog'),
+    # regression (fixed 760fbc8): a ternary must be emitted `((c) ? a : b)`, be Tp.supported and agree
+    ('WTernary', [{'a': 5, 'b': 0}, {'a': 1, 'b': 0}, {'a': 3, 'b': 0}, {'a': 2, 'b': 0}], 'regression:agree'),
+    ('WTernaryInCall', [{'a': 5, 'b': 3}, {'a': 1, 'b': 0}, {'a': 200, 'b': 100}, {'a': 2, 'b': 9}], 'regression:agree'),
+    # regression (fixed 61df158): a float constant in the method body must be refused
+    ('WFloatConst', [{'a': 1, 'b': 0}], 'regression:refuse'),
+    # the constructor assigns a state attribute several times: the `initial` block must leave the LAST constant
+    ('WMultiInit', [{'a': 1, 'b': 0}, {'a': 0, 'b': 0}, {'a': 1, 'b': 0}, {'a': 1, 'b': 0}], 'regression:agree'),
     ('WGuard', [{'a': 0, 'b': 0}, {'a': 0, 'b': 0}], 'C02-guarded-case'),
     # regression (fixed b2612d8): a match without `case _` must now parse (`default:;`), be Tp.supported and agree cycle by cycle
     ('WNoDefault', [{'a': 0, 'b': 0}, {'a': 0, 'b': 0}, {'a': 1, 'b': 0}, {'a': 0, 'b': 0}], 'regression:agree'),
@@ -809,20 +851,22 @@ def run_all(res, tier, rng, tmpdir, quick):
     for cname, hist, fid in WITNESSES:
         try:
             d = Dut('witness/' + cname, getattr(wm, cname), [('a', 8, 'in'), ('b', 8, 'out' if cname == 'WPutInClock' else 'in'), ('r', 8, 'out')],
-                    src=cname, tags=['refuse:match-guarded-wildcard'] if cname == 'WGuardedWildcard' else [], profile='witness')
+                    src=cname, tags={'WGuardedWildcard': ['refuse:match-guarded-wildcard'], 'WFloatConst': ['refuse:float-const']}.get(cname, []),
+                    profile='witness')
         except Exception as e:
             res.broken.append(('correspondence', 'witness-build', f'{cname}: {type(e).__name__}: {e}'))
             continue
         if fid == 'regression:refuse':
             res.hist('regression', cname + (':refused' if d.gen_err else ':ACCEPTED'))
             if not d.gen_err:
-                fail(res, f'witness/{cname}: `case _ if guard:` is outside the subset but the transpiler accepted it again (regression of 23b4fbe)',
-                     dict(kind='accepted-unsupported', construct='match-guarded-wildcard', design='witness/' + cname, supported=None, reasons=[],
+                cons_ = next((t[7:] for t in d.features if t.startswith('refuse:')), cname)
+                fail(res, f'witness/{cname}: `{cons_}` is outside the subset but the transpiler accepted it again (regression)',
+                     dict(kind='accepted-unsupported', construct=cons_, design='witness/' + cname, supported=None, reasons=[],
                           text=(d.text or '')[-400:]))
         if fid == 'regression:agree':
             res.hist('regression', cname + (':parses' if d.tree is not None else ':REFUSED-OR-UNPARSEABLE'))
             if d.gen_err:
-                fail(res, f'witness/{cname}: a match without `case _` is in the subset but the transpiler refuses it ({d.gen_err})',
+                fail(res, f'witness/{cname}: the class is in the subset but the transpiler refuses it ({d.gen_err})',
                      dict(kind='refused-supported', design='witness/' + cname, supported=True, reasons=[]))
         bt.add(d, hist, 'witness')
     # ---- (2) repo classes
